@@ -158,6 +158,9 @@ def run_unit(u, scratch, pid):
                 res.n_unsat += 1
             elif verdict == "unsat-single":
                 res.n_unsat += 1
+            elif verdict == "sat" and re.match(r"^(?:C\d+\+?)+: ", ob.name) and pid.startswith("C") and pid not in ob.name.split(":")[0].split("+"):
+                # an obligation that belongs to other properties (shared unit): theirs to report
+                res.cls.setdefault("other_props", []).append(ob.name)
             elif verdict == "sat":
                 model = next(r[2] for r in ob.results.values() if r[0] == "sat")
                 res.cls["candidates"].append(dict(kind="smt-model", desc="KV-%s: %s" % (pid, ob.name), model=model, obligation=ob.name, ob=ob))
